@@ -78,6 +78,8 @@ DIRECTED = [
 
 
 def run(ctx, log):
+    # the same small programs at every size around the widths the implementation encodes things in (closed-form results)
+    progcheck.run_scale(ctx, log, ['constants', 'locals'])
     rng = ctx.rng
     n = 300 if ctx.quick else 5000
     srcs_a, asts_a = progcheck.gen_sources(ctx, n, max_depth=3, funcs=False)
@@ -100,7 +102,10 @@ def run(ctx, log):
             fns = [s for s in a if s[0] == "expr" and s[1][0] == "fn" and s[1][1]]
             rest = [s for s in a if not (s[0] == "expr" and s[1][0] == "fn" and s[1][1])]
             declared = {s[1] for s in rest if s[0] == "let"}
-            if fns and rest and not any(astops.names_in(f[1][3]) & declared for f in fns) and "'fn'" not in repr(rest):
+            fn_names = [f[1][1] for f in fns]
+            # (moving the functions in front of the other statements must not reorder two declarations of one name)
+            if fns and rest and not any(astops.names_in(f[1][3]) & declared for f in fns) and "'fn'" not in repr(rest) \
+                    and not (set(fn_names) & declared) and len(set(fn_names)) == len(fn_names):
                 v_src.append(nlast.to_source(fns + [("expr", ("fn", "hoofd_", [], rest)), ("expr", ("call", ("id", "hoofd_"), []))]))
                 v_kind.append("statements-into-function")
                 v_base.append(i)
